@@ -175,6 +175,36 @@ pub fn search(tier: &str, seed: u64, s: &mut Search) {
             run(&mut wk, s, "text-edge", doc.as_bytes(), 96.0);
         }
     }
+    // author names in the form the converter generates itself (result1, clipPath1, mask1, filter1, linearGradient1 …),
+    // next to constructs that make it generate names: the uniqueness loops must end
+    {
+        let ng = if tier == "thorough" { 400 } else { 60 } * mult;
+        for _ in 0..ng {
+            let mut prims = String::new();
+            for _ in 0..1 + rng.below(5) {
+                let res = match rng.below(3) {
+                    0 => String::new(),
+                    _ => format!(r#" result="result{}""#, rng.range(1, 7)),
+                };
+                let inp = match rng.below(3) {
+                    0 => String::new(),
+                    1 => format!(r#" in="result{}""#, rng.range(1, 7)),
+                    _ => r#" in="SourceGraphic""#.to_string(),
+                };
+                prims += &match rng.below(4) {
+                    0 => format!(r#"<feFlood flood-color="red"{res}/>"#),
+                    1 => format!(r#"<feOffset{inp} dx="2"{res}/>"#),
+                    2 => format!(r#"<feBlend{inp} in2="result{}"{res}/>"#, rng.range(1, 7)),
+                    _ => format!(r#"<feMerge{res}><feMergeNode{inp}/><feMergeNode/></feMerge>"#),
+                };
+            }
+            let k = rng.range(1, 4);
+            let doc = format!(
+                r##"<svg xmlns="http://www.w3.org/2000/svg" xmlns:xlink="http://www.w3.org/1999/xlink" width="60" height="60"><defs><filter id="filter{k}" primitiveUnits="objectBoundingBox">{prims}</filter><clipPath id="clipPath{k}" clipPathUnits="objectBoundingBox"><rect width="1" height="1"/></clipPath><mask id="mask{k}" maskContentUnits="objectBoundingBox"><rect width="1" height="1" fill="white"/></mask><linearGradient id="linearGradient{k}"><stop offset="0"/><stop offset="1" stop-color="red"/></linearGradient><radialGradient id="radialGradient{k}"><stop offset="0"/><stop offset="1" stop-color="red"/></radialGradient><pattern id="pattern{k}" width="0.3" height="0.3"><rect width="2" height="2"/></pattern></defs><rect width="20" height="20" fill="url(#linearGradient{k})" stroke="url(#pattern{k})" clip-path="url(#clipPath{k})" mask="url(#mask{k})" filter="url(#filter{k})"/><rect x="25" width="30" height="10" fill="url(#radialGradient{k})" stroke="url(#linearGradient{k})" clip-path="url(#clipPath{k})" mask="url(#mask{k})" filter="url(#filter{k})"/><text x="2" y="50" font-size="12" fill="url(#pattern{k})" stroke="url(#radialGradient{k})">ab</text></svg>"##
+            );
+            run(&mut wk, s, "generated-names", doc.as_bytes(), 96.0);
+        }
+    }
     // huge geometry: curve and arc segments with adversarial magnitudes, stroked (the stroke box is computed while parsing)
     {
         let mags = [1.0f64, 1e6, 1e12, 1e17, 9e17, 1e18, 1.1e18, 1e19, 1e20, 1e30, 3e38];
